@@ -347,6 +347,11 @@ impl TryFrom<Headers> for SessionResponse {
     }
 }
 
+/// Verification harnesses with access to this module's private items (only under `cargo kani`).
+#[cfg(kani)]
+#[path = "/verif/kani/proto/in_session.rs"]
+pub(crate) mod verif_kani;
+
 #[cfg(test)]
 mod tests {
     use super::*;
